@@ -222,3 +222,254 @@ Proof. destruct ws as [|w0 wr]; [cbn; auto|]. unfold with_huffman_tree.
   destruct (huff_node_shape Hleaf Hbranch (w0 :: wr)) as [(n & -> & _)|[[D _]|[N ->]]]; [|discriminate|right; split; [discriminate|reflexivity]].
   unfold from_node_info, new_key_spend, tap_tweak. destruct (scalar_ok _); [|auto]. destruct (tweak P _) as [[Q par]|]; [discriminate|auto]. Qed.
 End SPEND.
+
+(* ------------------------------------------------------------------ running the loop with a shadow payload *)
+Section PROJ.
+Variables X Y : Type.
+Variable f : Y -> X.
+Variable xcmp : X -> X -> comparison.
+Variable xcomb : X -> X -> res berr X.
+Variable ycomb : Y -> Y -> res berr Y.
+Hypothesis comb_ok : forall a b, match ycomb a b with Ok c => xcomb (f a) (f b) = Ok (f c) | Err e => xcomb (f a) (f b) = Err e end.
+Definition ycmp (a b : Y) : comparison := xcmp (f a) (f b).
+Definition pf (e : N * Y) : N * X := (fst e, f (snd e)).
+Lemma pop_max_proj : forall l y m rest, pop_max Y ycmp y l = (m, rest) -> pop_max X xcmp (pf y) (map pf l) = (pf m, map pf rest).
+Proof. induction l as [|z r IH]; intros y m rest E; cbn [Huffman.pop_max map] in *.
+  - inversion E; subst. reflexivity.
+  - destruct (pop_max Y ycmp z r) as [m' rest'] eqn:P. rewrite (IH z m' rest' P).
+    change (Huffman.entry_cmp X xcmp (pf y) (pf m')) with (Huffman.entry_cmp Y ycmp y m').
+    destruct (Huffman.entry_cmp Y ycmp y m'); inversion E; subst; reflexivity. Qed.
+Lemma huff_loop_proj : forall fuel h,
+  huff_loop X xcmp xcomb fuel (map pf h) =
+  match huff_loop Y ycmp ycomb fuel h with Val y => Val (f y) | Fail e => Fail e | Panic s => Panic s end.
+Proof. induction fuel as [|fu IH]; intros h.
+  - destruct h as [|a [|b r]]; reflexivity.
+  - destruct h as [|a [|b r]]; try reflexivity. cbn [Huffman.huff_loop map].
+    destruct (pop_max Y ycmp a (b :: r)) as [e1 h1] eqn:P1. apply pop_max_proj in P1. cbn [map] in P1. rewrite P1.
+    destruct h1 as [|y r1]; [reflexivity|]. cbn [map]. destruct (pop_max Y ycmp y r1) as [e2 h2] eqn:P2. apply pop_max_proj in P2. rewrite P2.
+    pose proof (comb_ok (snd e1) (snd e2)) as C. cbn [pf snd fst]. destruct (ycomb (snd e1) (snd e2)) as [c|e]; rewrite C; [|reflexivity].
+    apply (IH ((sat_add (fst e1) (fst e2), c) :: h2)). Qed.
+End PROJ.
+
+(* ------------------------------------------------------------------ weighted shadow trees and the depth-order argument
+   In a tree built by always merging the two lightest, any two internal nodes are ordered: all children of the earlier one weigh
+   at most as much as all children of the later one.  From that and "weight = sum of the children": for ANY two nodes x, y of
+   the final tree, weight x < weight y -> depth x >= depth y (induction on the depth of y; the parents are either the same
+   node, or strictly ordered by weight again). *)
+Inductive wtree := WL (w : N) (sc : bytes) | WN (w : N) (a b : wtree).
+Definition wt (T : wtree) : N := match T with WL w _ => w | WN w _ _ => w end.
+Fixpoint sums (T : wtree) : Prop := match T with WL _ _ => True | WN w a b => w = (wt a + wt b)%N /\ sums a /\ sums b end.
+Record irec := { r_d : nat; r_w : N; r_a : N; r_b : N }.     (* an internal node: depth, weight, weights of its two children *)
+Definition bump (r : irec) : irec := {| r_d := S (r_d r); r_w := r_w r; r_a := r_a r; r_b := r_b r |}.
+Fixpoint inodes (T : wtree) (d : nat) : list irec :=
+  match T with WL _ _ => [] | WN w a b => {| r_d := d; r_w := w; r_a := wt a; r_b := wt b |} :: inodes a (S d) ++ inodes b (S d) end.
+Fixpoint nodes (T : wtree) (d : nat) : list (N * nat) :=
+  match T with WL w _ => [(w, d)] | WN w a b => (w, d) :: nodes a (S d) ++ nodes b (S d) end.
+Fixpoint wleaves (T : wtree) (d : nat) : list (N * bytes * nat) :=
+  match T with WL w sc => [(w, sc, d)] | WN _ a b => wleaves a (S d) ++ wleaves b (S d) end.
+Definition ord (r1 r2 : irec) : Prop :=
+  (N.max (r_a r1) (r_b r1) <= N.min (r_a r2) (r_b r2))%N \/ (N.max (r_a r2) (r_b r2) <= N.min (r_a r1) (r_b r1))%N.
+Definition C1d (T : wtree) (d : nat) : Prop := forall r1 r2, In r1 (inodes T d) -> In r2 (inodes T d) -> ord r1 r2 \/ r_d r1 = r_d r2.
+Lemma ord_sym r1 r2 : ord r1 r2 -> ord r2 r1. Proof. unfold ord. tauto. Qed.
+Lemma ord_bump r1 r2 : ord r1 r2 -> ord (bump r1) (bump r2). Proof. exact (fun H => H). Qed.
+
+Lemma inodes_S T : forall d, inodes T (S d) = map bump (inodes T d).
+Proof. induction T as [w sc|w a IHa b IHb]; intros d; cbn [inodes map]; [reflexivity|]. rewrite IHa, IHb, map_app. reflexivity. Qed.
+Lemma wleaves_S T : forall d, wleaves T (S d) = map (fun x => (fst x, S (snd x))) (wleaves T d).
+Proof. induction T as [w sc|w a IHa b IHb]; intros d; cbn [wleaves map]; [reflexivity|]. rewrite IHa, IHb, map_app. reflexivity. Qed.
+Lemma C1d_S T d : C1d T d -> C1d T (S d).
+Proof. intros C r1 r2. rewrite inodes_S. intros H1 H2. apply in_map_iff in H1 as [x1 [<- H1]]. apply in_map_iff in H2 as [x2 [<- H2]].
+  destruct (C x1 x2 H1 H2) as [O|E]; [left; exact O|right; cbn; congruence]. Qed.
+
+Lemma node_parent T : forall d w e, In (w, e) (nodes T d) ->
+  (e = d /\ w = wt T) \/ exists r, In r (inodes T d) /\ S (r_d r) = e /\ (w = r_a r \/ w = r_b r).
+Proof. induction T as [w0 sc|w0 a IHa b IHb]; intros d w e H; cbn [nodes inodes wt] in *.
+  - destruct H as [H|[]]. inversion H; subst. now left.
+  - destruct H as [H|H]; [inversion H; subst; now left|]. right. apply in_app_or in H as [H|H].
+    + destruct (IHa _ _ _ H) as [[-> ->]|(r & Hr & R)].
+      * eexists. split; [left; reflexivity|]. cbn. auto.
+      * exists r. split; [right; apply in_or_app; now left|exact R].
+    + destruct (IHb _ _ _ H) as [[-> ->]|(r & Hr & R)].
+      * eexists. split; [left; reflexivity|]. cbn. auto.
+      * exists r. split; [right; apply in_or_app; now right|exact R]. Qed.
+Lemma inode_node T : forall d r, sums T -> In r (inodes T d) -> r_w r = (r_a r + r_b r)%N /\ In (r_w r, r_d r) (nodes T d).
+Proof. induction T as [w0 sc|w0 a IHa b IHb]; intros d r Sm H; cbn [nodes inodes sums] in *; [destruct H|].
+  destruct Sm as (E & Sa & Sb). destruct H as [<-|H]; [cbn; auto|]. apply in_app_or in H as [H|H].
+  - destruct (IHa _ _ Sa H) as [E1 E2]. split; [exact E1|right; apply in_or_app; now left].
+  - destruct (IHb _ _ Sb H) as [E1 E2]. split; [exact E1|right; apply in_or_app; now right]. Qed.
+Lemma node_le_root T : forall d w e, sums T -> In (w, e) (nodes T d) -> (w <= wt T)%N.
+Proof. induction T as [w0 sc|w0 a IHa b IHb]; intros d w e Sm H; cbn [nodes sums wt] in *.
+  - destruct H as [H|[]]. inversion H. lia.
+  - destruct Sm as (E & Sa & Sb). destruct H as [H|H]; [inversion H; lia|]. apply in_app_or in H as [H|H].
+    + specialize (IHa _ _ _ Sa H). lia. + specialize (IHb _ _ _ Sb H). lia. Qed.
+Lemma wleaf_node T : forall d x, In x (wleaves T d) -> In (fst (fst x), snd x) (nodes T d).
+Proof. induction T as [w0 sc|w0 a IHa b IHb]; intros d x H; cbn [nodes wleaves] in *.
+  - destruct H as [<-|[]]. now left.
+  - right. apply in_or_app. apply in_app_or in H as [H|H]; [left; now apply IHa|right; now apply IHb]. Qed.
+
+Theorem depth_order T : sums T -> C1d T 0 -> forall d2 w1 d1 w2, In (w1, d1) (nodes T 0) -> In (w2, d2) (nodes T 0) -> (w1 < w2)%N -> (d2 <= d1)%nat.
+Proof. intros Sm C. induction d2 as [|d2' IH]; intros w1 d1 w2 H1 H2 L; [lia|].
+  destruct (node_parent T 0 w1 d1 H1) as [[-> ->]|(r1 & I1 & D1 & K1)].
+  - pose proof (node_le_root T 0 w2 (S d2') Sm H2). lia.
+  - destruct (node_parent T 0 w2 (S d2') H2) as [[Bad _]|(r2 & I2 & D2 & K2)]; [discriminate|].
+    destruct (inode_node T 0 r1 Sm I1) as [E1 N1]. destruct (inode_node T 0 r2 Sm I2) as [E2 N2].
+    destruct (C r1 r2 I1 I2) as [[O|O]|Ed]; [| |lia].
+    + assert (Lw : (r_w r1 < r_w r2)%N) by (destruct K1, K2; lia).
+      assert (Dd : r_d r2 = d2') by lia. rewrite Dd in N2. specialize (IH _ _ _ N1 N2 Lw). lia.
+    + exfalso. destruct K1, K2; lia. Qed.
+
+Lemma FOP_perm {A} (R : A -> A -> Prop) (Rsym : forall x y, R x y -> R y x) l l' :
+  Permutation l l' -> ForallOrdPairs R l -> ForallOrdPairs R l'.
+Proof. induction 1 as [|x l l' P IH|x y l|l l' l'' P1 IH1 P2 IH2]; intros F.
+  - constructor.
+  - inversion F; subst. constructor; [eapply Permutation_Forall; eassumption|auto].
+  - inversion F as [|? ? Fy F']; subst. inversion F' as [|? ? Fx F'']; subst. inversion Fy; subst.
+    constructor; [constructor; [apply Rsym; assumption|assumption]|constructor; assumption].
+  - auto. Qed.
+
+Section HORDER.
+Variables Hleaf Hbranch : bytes -> bytes.
+Notation combine := (combine Hbranch).
+Notation Y := (node * wtree)%type (only parsing).
+Definition ycomb (a b : Y) : res berr Y :=
+  match combine (fst a) (fst b) with Ok c => Ok (c, WN (wt (snd a) + wt (snd b)) (snd a) (snd b)) | Err e => Err e end.
+Lemma ycomb_ok a b : match ycomb a b with Ok c => combine (fst a) (fst b) = Ok (fst c) | Err e => combine (fst a) (fst b) = Err e end.
+Proof. unfold ycomb. destruct (combine (fst a) (fst b)); reflexivity. Qed.
+Definition eT (e : N * Y) : wtree := snd (snd e).
+Definition eN (e : N * Y) : node := fst (snd e).
+Definition Rn (n : node) (T : wtree) : Prop :=
+  map (fun l => (l_script l, length (l_branch l))) (n_leaves n) = map (fun x => (snd (fst x), snd x)) (wleaves T 0).
+Definition ent_ok (e : N * Y) : Prop := fst e = wt (eT e) /\ sums (eT e) /\ C1d (eT e) 0 /\ Rn (eN e) (eT e).
+Definition bound (h : list (N * Y)) : Prop :=
+  forall e e', In e h -> In e' h -> forall r, In r (inodes (eT e) 0) -> (r_a r <= fst e')%N /\ (r_b r <= fst e')%N.
+Definition crossR (e e' : N * Y) : Prop := forall r r', In r (inodes (eT e) 0) -> In r' (inodes (eT e') 0) -> ord r r'.
+Definition sumw (h : list (N * Y)) : N := fold_right (fun e s => (fst e + s)%N) 0%N h.
+Definition lw (h : list (N * Y)) : list (N * bytes) := flat_map (fun e => map fst (wleaves (eT e) 0)) h.
+Variable total : N.
+Variable ws : list (N * bytes).
+Hypothesis total_ok : (total <= U64MAX)%N.
+Definition INV (h : list (N * Y)) : Prop :=
+  Forall ent_ok h /\ bound h /\ ForallOrdPairs crossR h /\ sumw h = total /\ Permutation (lw h) ws.
+
+Lemma sumw_perm h h' : Permutation h h' -> sumw h = sumw h'.
+Proof. induction 1; unfold sumw in *; cbn [fold_right] in *; lia. Qed.
+Lemma sumw_in h e : In e h -> (fst e <= sumw h)%N.
+Proof. induction h as [|a r IH]; intros []; cbn [sumw fold_right]; [subst; lia|]. specialize (IH H). unfold sumw in IH. lia. Qed.
+Lemma INV_perm h h' : Permutation h h' -> INV h -> INV h'.
+Proof. intros P (F & B & C & Sw & L). split; [eapply Permutation_Forall; eassumption|]. split.
+  - intros e e' He He'. apply (B e e'); eapply Permutation_in; try apply Permutation_sym; eassumption.
+  - split; [eapply FOP_perm; [|eassumption|assumption]; intros x y H r r' Hr Hr'; apply ord_sym; auto|].
+    split; [rewrite <- Sw; symmetry; now apply sumw_perm|]. rewrite <- L. symmetry. now apply Permutation_flat_map. Qed.
+
+Lemma INV_step e1 e2 r c : INV (e1 :: e2 :: r) -> (fst e1 <= fst e2)%N -> (forall y, In y r -> (fst e2 <= fst y)%N) ->
+  ycomb (snd e1) (snd e2) = Ok c -> INV ((sat_add (fst e1) (fst e2), c) :: r).
+Proof. intros (F & B & C & Sw & L) L12 L2r E.
+  inversion F as [|? ? (W1 & S1 & C1 & R1) F']; subst. inversion F' as [|? ? (W2 & S2 & C2 & R2) Fr]; subst.
+  inversion C as [|? ? X1 C']; subst. inversion C' as [|? ? X2 Cr]; subst. inversion X1 as [|? ? X12 X1r]; subst.
+  unfold ycomb in E. destruct (combine (fst (snd e1)) (fst (snd e2))) as [cn|] eqn:Ec; [|discriminate]. inversion E; subst c. clear E.
+  fold (eT e1) (eT e2) in *. fold (eN e1) (eN e2) in *.
+  assert (Sat : sat_add (fst e1) (fst e2) = (fst e1 + fst e2)%N).
+  { unfold sat_add. cbn [sumw fold_right] in Sw. apply N.min_l. lia. }
+  rewrite Sat. set (T := WN (wt (eT e1) + wt (eT e2)) (eT e1) (eT e2)). set (enew := ((fst e1 + fst e2)%N, (cn, T))).
+  assert (In1 : In e1 (e1 :: e2 :: r)) by (now left). assert (In2 : In e2 (e1 :: e2 :: r)) by (right; now left).
+  (* children of every old internal node weigh at most as much as both merged roots *)
+  assert (Old : forall e, In e (e1 :: e2 :: r) -> forall x, In x (inodes (eT e) 0) ->
+            (N.max (r_a x) (r_b x) <= N.min (wt (eT e1)) (wt (eT e2)))%N).
+  { intros e He x Hx. destruct (B e e1 He In1 x Hx). destruct (B e e2 He In2 x Hx). lia. }
+  assert (InT : forall x, In x (inodes T 0) ->
+            x = {| r_d := 0; r_w := (wt (eT e1) + wt (eT e2))%N; r_a := wt (eT e1); r_b := wt (eT e2) |} \/
+            (exists x', x = bump x' /\ In x' (inodes (eT e1) 0)) \/ (exists x', x = bump x' /\ In x' (inodes (eT e2) 0))).
+  { intros x Hx. cbn [inodes T] in Hx. rewrite !inodes_S in Hx. destruct Hx as [<-|Hx]; [now left|]. right.
+    apply in_app_or in Hx as [Hx|Hx]; apply in_map_iff in Hx as [x' [<- Hx']]; eauto. }
+  split; [constructor; [|exact Fr]|].
+  { (* the new entry *)
+    unfold ent_ok, enew. cbn [fst snd eT eN]. split; [cbn [wt T]; lia|]. split; [cbn [sums T]; auto|]. split.
+    - intros x y Hx Hy. destruct (InT x Hx) as [->|[(x' & -> & Hx')|(x' & -> & Hx')]]; destruct (InT y Hy) as [->|[(y' & -> & Hy')|(y' & -> & Hy')]].
+      + now right.
+      + left. right. cbn. apply (Old e1 In1 y' Hy').
+      + left. right. cbn. apply (Old e2 In2 y' Hy').
+      + left. left. cbn. apply (Old e1 In1 x' Hx').
+      + destruct (C1 x' y' Hx' Hy') as [O|D]; [left; exact O|right; cbn; congruence].
+      + left. exact (X12 x' y' Hx' Hy').
+      + left. left. cbn. apply (Old e2 In2 x' Hx').
+      + left. apply ord_sym. exact (X12 y' x' Hy' Hx').
+      + destruct (C2 x' y' Hx' Hy') as [O|D]; [left; exact O|right; cbn; congruence].
+    - unfold Rn in *. destruct (combine_spec Hbranch _ _ _ Ec) as [-> _]. unfold combine_tot. cbn [n_leaves wleaves T].
+      rewrite !map_app, !map_map, !wleaves_S, !map_map. cbn [snoc l_script l_branch fst snd]. f_equal.
+      + transitivity (map (fun p => (fst p, S (snd p))) (map (fun l => (l_script l, length (l_branch l))) (n_leaves (eN e1)))).
+        * rewrite map_map. apply map_ext. intros l. cbn. rewrite app_length. cbn. f_equal. lia.
+        * rewrite R1, map_map. reflexivity.
+      + transitivity (map (fun p => (fst p, S (snd p))) (map (fun l => (l_script l, length (l_branch l))) (n_leaves (eN e2)))).
+        * rewrite map_map. apply map_ext. intros l. cbn. rewrite app_length. cbn. f_equal. lia.
+        * rewrite R2, map_map. reflexivity. }
+  split.
+  { (* bound *)
+    intros e e' He He' x Hx.
+    assert (Root : forall e'', In e'' (enew :: r) -> (fst e1 <= fst e'')%N /\ (fst e2 <= fst e'')%N).
+    { intros e'' [<-|H]; [unfold enew; cbn [fst]; lia|]. specialize (L2r e'' H). lia. }
+    destruct (Root e' He') as [G1 G2]. destruct He as [<-|He].
+    - cbn [eT enew snd] in Hx. destruct (InT x Hx) as [->|[(x' & -> & Hx')|(x' & -> & Hx')]]; cbn [bump r_a r_b].
+      + lia.
+      + destruct (B e1 e1 In1 In1 x' Hx'). lia.
+      + destruct (B e2 e1 In2 In1 x' Hx'). lia.
+    - destruct (B e e1 (or_intror (or_intror He)) In1 x Hx). lia. }
+  split.
+  { (* cross *)
+    constructor; [|exact Cr]. apply Forall_forall. intros e' He' x y Hx Hy. cbn [eT enew snd] in Hx.
+    rewrite Forall_forall in X1r, X2.
+    destruct (InT x Hx) as [->|[(x' & -> & Hx')|(x' & -> & Hx')]].
+    - right. cbn. apply (Old e' (or_intror (or_intror He')) y Hy).
+    - exact (X1r e' He' x' y Hx' Hy).
+    - exact (X2 e' He' x' y Hx' Hy). }
+  split.
+  { cbn [sumw fold_right enew fst] in *. lia. }
+  { rewrite <- L. unfold lw. cbn [flat_map eT enew snd wleaves T]. rewrite !wleaves_S, map_app, !map_map. cbn [fst]. rewrite <- app_assoc. apply Permutation_refl. }
+Qed.
+End HORDER.
+
+Section ORDER_THM.
+Variables Hleaf Hbranch : bytes -> bytes.
+Definition wsum (ws : list (N * bytes)) : N := fold_right (fun x s => (fst x + s)%N) 0%N ws.
+Definition shadow_entry (x : N * bytes) : N * (node * wtree) := (fst x, (new_leaf Hleaf (snd x) default_ver, WL (fst x) (snd x))).
+
+Lemma INV_init ws : (wsum ws <= U64MAX)%N -> INV (wsum ws) ws (map shadow_entry ws).
+Proof. intros _. split; [|split; [|split; [|split]]].
+  - apply Forall_forall. intros e He. apply in_map_iff in He as [x [<- _]]. unfold ent_ok, shadow_entry, eT, eN. cbn.
+    split; [reflexivity|]. split; [exact I|]. split; [intros r1 r2 []|reflexivity].
+  - intros e e' He _ r Hr. apply in_map_iff in He as [x [<- _]]. destruct Hr.
+  - induction ws as [|x r IH]; cbn [map]; constructor; [|exact IH]. apply Forall_forall. intros e' _ r1 r2 [].
+  - induction ws as [|x r IH]; cbn [map sumw wsum fold_right fst shadow_entry] in *; [reflexivity|]. unfold sumw, wsum in IH. now rewrite IH.
+  - unfold lw. induction ws as [|x r IH]; cbn [map flat_map]; [constructor|]. unfold eT, shadow_entry at 1. cbn. destruct x. now apply perm_skip. Qed.
+
+(* Huffman order (full, when the u64 weight sum does not saturate): there is an assignment of the input weights to the leaves of
+   the result — a rearrangement wl of the inputs, position by position the leaves of the result with their scripts and depths —
+   under which a strictly heavier leaf is never strictly deeper than a lighter one *)
+Theorem huff_order ws n : huff_node Hleaf Hbranch ws = Val n -> (wsum ws <= U64MAX)%N ->
+  exists wl : list (N * bytes * nat),
+    Permutation (map fst wl) ws /\
+    map (fun l => (l_script l, length (l_branch l))) (n_leaves n) = map (fun x => (snd (fst x), snd x)) wl /\
+    forall x y, In x wl -> In y wl -> (fst (fst y) < fst (fst x))%N -> (snd x <= snd y)%nat.
+Proof. intros E Hs. unfold huff_node, huffman in E. destruct ws as [|w0 wr]; [discriminate|]. cbn [map] in E.
+  set (ws := w0 :: wr) in *.
+  change ((fst w0, new_leaf Hleaf (snd w0) default_ver) :: map (fun x : N * bytes => (fst x, new_leaf Hleaf (snd x) default_ver)) wr)
+    with (map (fun x : N * bytes => (fst x, new_leaf Hleaf (snd x) default_ver)) ws) in E.
+  assert (Em : map (fun x : N * bytes => (fst x, new_leaf Hleaf (snd x) default_ver)) ws = map (pf node (node * wtree) fst) (map shadow_entry ws)).
+  { rewrite map_map. apply map_ext. intros x. reflexivity. }
+  assert (E' : huff_loop node node_cmp (combine Hbranch) (length (map shadow_entry ws)) (map (pf node (node * wtree) fst) (map shadow_entry ws)) = Val n).
+  { rewrite <- Em. rewrite map_length in *. exact E. }
+  rewrite (huff_loop_proj node (node * wtree) fst node_cmp (combine Hbranch) (ycomb Hbranch) (ycomb_ok Hbranch)) in E'.
+  destruct (huff_loop (node * wtree) _ _ _ _) as [y| |] eqn:Ey; try discriminate. inversion E'; subst n.
+  destruct (huff_loop_inv (node * wtree) _ (ycomb Hbranch) (INV (wsum ws) ws) (INV_perm (wsum ws) ws Hs) (INV_step Hbranch (wsum ws) ws Hs) _ _ y (INV_init ws Hs) Ey)
+    as [w (F & _ & _ & _ & L)].
+  inversion F as [|? ? (_ & Sm & C & R) _]; subst. unfold eT, eN in *. cbn [fst snd] in *.
+  exists (wleaves (snd y) 0). unfold lw in L. cbn [flat_map eT snd] in L. rewrite app_nil_r in L.
+  split; [exact L|]. split; [exact R|]. intros a b Ha Hb Lt.
+  exact (depth_order (snd y) Sm C (snd a) (fst (fst b)) (snd b) (fst (fst a)) (wleaf_node _ _ _ Hb) (wleaf_node _ _ _ Ha) Lt). Qed.
+End ORDER_THM.
+
+(* the Rust inputs are u32 weights: fewer than 2^32 of them cannot saturate the u64 sum *)
+Lemma wsum_u32 ws : (forall x, In x ws -> (fst x < 2 ^ 32)%N) -> (N.of_nat (length ws) <= 2 ^ 32)%N -> (wsum ws <= U64MAX)%N.
+Proof. intros B L. assert (G : (wsum ws <= N.of_nat (length ws) * (2 ^ 32 - 1))%N).
+  { clear L. induction ws as [|x r IH]; cbn [wsum fold_right length]; [lia|]. specialize (B x (or_introl eq_refl)) as Bx.
+    assert (IH' : (wsum r <= N.of_nat (length r) * (2 ^ 32 - 1))%N) by (apply IH; intros; apply B; now right). unfold wsum in IH'. lia. }
+  unfold U64MAX. change (2 ^ 32)%N with 4294967296%N in *. nia. Qed.
